@@ -42,9 +42,13 @@ deriving Repr
 
 def statusValue (r : GRec) : List Char := r.want ++ ' ' :: (r.flag ++ ' ' :: r.state)
 
+/-- the `Version` field; a record that is not installed may have none (`ver = []`: the usual purged / config-files
+stanza) -/
+def verFields (r : GRec) : List Field := if r.ver = [] then [] else [⟨r.keyV, r.sepV, r.ver, []⟩]
+
 /-- the significant fields -/
 def sigFields (r : GRec) : List Field :=
-  [⟨r.keyP, r.sepP, r.name, []⟩, ⟨r.keyS, r.sepS, statusValue r, []⟩, ⟨r.keyV, r.sepV, r.ver, []⟩] ++
+  [⟨r.keyP, r.sepP, r.name, []⟩, ⟨r.keyS, r.sepS, statusValue r, []⟩] ++ verFields r ++
   (match r.source with | some s => [⟨r.keySrc, [' '], s, []⟩] | none => [])
 
 def fieldLines (f : Field) : List Line := (f.key ++ ':' :: (f.sep ++ f.value)) :: f.cont
@@ -95,13 +99,14 @@ def extraKeyOK (f : Field) : Bool :=
   | none => true
 
 /-- legal stanza: the file order is a permutation of significant fields + extras; the significant keys are
-spelled in any letter case; name, version non-empty; `Status` is three words; a `Source` value with " (" ends in
+spelled in any letter case; name non-empty; version non-empty when the record is installed (a not-installed record may
+lack the `Version` field altogether); `Status` is three words; a `Source` value with " (" ends in
 ")"; no unrelated field is named like a significant one -/
 def WFrec (r : GRec) : Prop :=
   r.fields.Perm (sigFields r ++ r.extras) ∧ (∀ f ∈ r.fields, WFfield f) ∧
   canonKey r.keyP = some "Package".toList ∧ canonKey r.keyS = some "Status".toList ∧
   canonKey r.keyV = some "Version".toList ∧ canonKey r.keySrc = some "Source".toList ∧
-  r.name ≠ [] ∧ r.ver ≠ [] ∧ word r.want ∧ word r.flag ∧ word r.state ∧
+  r.name ≠ [] ∧ (r.state = "installed".toList → r.ver ≠ []) ∧ word r.want ∧ word r.flag ∧ word r.state ∧
   (∀ s, r.source = some s → s ≠ [] ∧ (containsSpParen s = true → s.getLast? = some ')')) ∧
   (∀ f ∈ r.extras, extraKeyOK f = true)
 
